@@ -105,7 +105,7 @@ func (e *Enc) allFieldCompNames(t types.Type, out map[string]bool) {
 	}
 	for i := 0; i < st.NumFields(); i++ {
 		ft := st.Field(i).Type()
-		if e.isStructT(ft) {
+		if e.subObj(ft) {
 			e.allFieldCompNames(ft, out)
 			continue
 		}
@@ -131,7 +131,7 @@ func (e *Enc) storeCompNames(addr ssa.Value, out map[string]bool) {
 	if fa, ok := addr.(*ssa.FieldAddr); ok {
 		S := derefType(fa.X.Type())
 		ft := structOf(S).Field(fa.Field).Type()
-		if e.isStructT(ft) {
+		if e.subObj(ft) {
 			e.allFieldCompNames(ft, out)
 		} else {
 			for _, l := range e.leavesSafe(ft) {
@@ -256,7 +256,7 @@ func (e *Enc) callWrites(c *ssa.CallCommon, ws *writeSet, depth int, seen map[*s
 		}
 		return
 	}
-	if callee != nil && inRepo(callee) && len(callee.Blocks) > 0 && depth < 3 && !seen[callee] {
+	if callee != nil && inRepo(callee) && len(callee.Blocks) > 0 && depth < 6 && !seen[callee] {
 		seen[callee] = true
 		for _, b := range callee.Blocks {
 			for _, ins := range b.Instrs {
@@ -439,7 +439,7 @@ func (f *FnEnc) fieldPtrArgs(args []Val, sig *types.Signature, callee string) bo
 }
 
 func (f *FnEnc) canInline(callee *ssa.Function) bool {
-	if f.depth >= 3 {
+	if f.depth >= 6 {
 		return false
 	}
 	for _, s := range f.e.inlineStack {
@@ -577,6 +577,15 @@ func (f *FnEnc) applyContract(spec *FuncSpec, sig *types.Signature, name string,
 		f.addObl("pre", short+"/"+clauseLabel(c, i)+"@"+f.srcAt(pos), g, pos, nil, c.Src)
 		f.assume(g)
 	}
+	for i, c := range spec.Needs {
+		// without these the callee panics: an obligation for no-panic proofs, a fact of every
+		// normally returning execution otherwise
+		g := f.evalClauseSafe(ctx, c)
+		if e.nopanic && !f.recovers {
+			f.addObl("pre", short+"/needs-"+clauseLabel(c, i)+"@"+f.srcAt(pos), g, pos, nil, c.Src)
+		}
+		f.assume(g)
+	}
 	if !spec.Pure {
 		f.checkEscapes(args, name)
 	}
@@ -621,6 +630,8 @@ type assignTarget struct {
 	mapKey Term // for map entries
 	more   []Term // deeper indices (ghost functions)
 	whole  bool
+	// whole-component havoc that leaves every object allocated before this reference untouched
+	olderThan Term
 }
 
 func (tg assignTarget) indices() []Term {
@@ -680,6 +691,11 @@ func (f *FnEnc) havocTarget(tg assignTarget) {
 	if tg.whole || c.Scalar {
 		nv := e.freshConst(c.Name+"'", c.Sort)
 		e.compTypingFact(c, nv, f.st.Alloc)
+		if tg.olderThan.S != "" && !c.Scalar && isArr(c.Sort) {
+			if is, _ := arrParts(c.Sort); is == SInt {
+				e.fact(Term{fmt.Sprintf("(forall ((r Int)) (! (=> (< (rootof r) %s) (= (select %s r) (select %s r))) :pattern ((select %s r))))", tg.olderThan.S, nv.S, cur.S, nv.S), SBool})
+			}
+		}
 		f.st.H[c.Name] = nv
 		return
 	}
@@ -1034,7 +1050,7 @@ func (e *Enc) elemComps(t types.Type) []*Comp {
 	if st := structOf(t); st != nil {
 		for i := 0; i < st.NumFields(); i++ {
 			ft := st.Field(i).Type()
-			if e.isStructT(ft) {
+			if e.subObj(ft) {
 				return nil // nested struct elements: handled by havoc
 			}
 			for _, l := range e.leaves(ft) {
